@@ -258,6 +258,20 @@ theorem C20_every_link_of_the_site_resolves (runs : List NsD) (hok : ∀ run ∈
     ∀ f ∈ site runs, ∀ it ∈ f.2, ∀ h, it.relLink = some h → Resolves (site runs) f.1 h :=
   site_links_resolve runs hok hcl
 
+
+/-- The same with the hypotheses in executable form (`runOkB`, `closedB`: what the driver evaluates for the real runs of the
+tie, and what the examples below decide). -/
+theorem C20_every_link_of_the_site_resolves_checked (runs : List NsD) (hok : runs.all runOkB = true) (hcl : closedB runs = true) :
+    ∀ f ∈ site runs, ∀ it ∈ f.2, ∀ h, it.relLink = some h → Resolves (site runs) f.1 h :=
+  site_links_resolve runs (fun run hrun => runOk_of_runOkB (List.all_eq_true.mp hok run hrun)) (closed_of_closedB hcl)
+
+/-- The files of a run do not overwrite each other: two types are written to the same path only if they have the same name
+and version, and no type page has the path of a namespace page. -/
+theorem C20_page_files_distinct (a b : CType) (ha : a.comps ≠ []) (hb : b.comps ≠ []) :
+    (typePagePath a = typePagePath b → a.comps = b.comps ∧ a.major = b.major ∧ a.minor = b.minor) ∧
+    ∀ ns, typePagePath a ≠ nsPagePath ns :=
+  ⟨typePagePath_inj ha hb, typePagePath_ne_nsPagePath a⟩
+
 /-- Which links a page has: the relative links of the page of namespace `tr` are exactly `"../" * depth` + `url_from_type`
 of the types `linkedNs tr` lists (nested entries with `short_name != "_"`). -/
 theorem C20_relative_links_are_type_links (tr : NsD) : ∀ it ∈ nsPageItems tr, ∀ h, it.relLink = some h →
@@ -431,6 +445,10 @@ def simpleExampleRun : NsD :=
     [.node ["reg".toList, "n1".toList] [v] [.node ["reg".toList, "n1".toList, "Deep".toList] [] []]]
 
 example : simpleRun simpleExampleRun = true ∧ (idsOf (nsPageItems simpleExampleRun)).length = 36 := by decide
+
+/-- the hypotheses of the link theorem hold for both example runs (and all their links resolve, above) -/
+example : [collisionRun, simpleExampleRun].all runOkB = true ∧ closedB [collisionRun] = true ∧ closedB [simpleExampleRun] = true := by
+  decide
 
 /-- each collision witness violates the condition -/
 example : simpleRun collisionRun = false ∧ simpleRun (.node ["search".toList] [] []) = false := by decide
